@@ -107,6 +107,11 @@ func parseContentType(transaction *transaction, headers jws.Headers, _ *jws.Mess
 func parseSignatureParams(transaction *transaction, headers jws.Headers, _ *jws.Message) error {
 	if key, ok := headers.Get(jws.JWKKey); ok {
 		jwkKey := key.(jwk.Key)
+		// RFC004 3.1: the `jwk` header contains the public key. A private (or symmetric) key must never be accepted here:
+		// it would be stored and gossiped as part of the transaction, and the signature verifier would derive the public key from it.
+		if isPrivate, err := jwk.IsPrivateKey(jwkKey); err != nil || isPrivate {
+			return transactionValidationError("`jwk` header must contain a public key")
+		}
 		transaction.signingKey = jwkKey
 	}
 	// Get the keyID from the header (not to be confused with the keyID from the embedded key)
